@@ -214,6 +214,16 @@ func (m *Machine) pick(curEnabled bool, exiting bool) {
 			m.modelViolation("deadlock", nil, "", msg)
 			m.end(StDeadlock, "%s", msg)
 		}
+		if m.settling {
+			// deterministic: run every other goroutine until it blocks, main last (no decisions, no delays)
+			for i, g := range list {
+				if g.id != 0 {
+					list[0], list[i] = list[i], list[0]
+					break
+				}
+			}
+			list = list[:1]
+		}
 		maxAlt := len(list)
 		if rem := m.Opt.DelayBound - m.delays + 1; rem < maxAlt {
 			maxAlt = rem
@@ -555,4 +565,22 @@ func (m *Machine) after(d int64) *ChanObj {
 	}
 	m.timers = append(m.timers, t)
 	return ch
+}
+
+// settle lets every goroutine spawned so far (package init: the default Handler) run until it blocks.
+func (m *Machine) settle() {
+	m.settling = true
+	for {
+		other := false
+		for _, g := range m.gs {
+			if g != m.cur && m.enabled(g) {
+				other = true
+			}
+		}
+		if !other {
+			break
+		}
+		m.pick(true, false)
+	}
+	m.settling = false
 }
